@@ -73,31 +73,45 @@ Qed.
 Lemma uadd_small a b : a + b < USIZE -> uadd W_usize a b = Val (a + b).
 Proof. intros H. unfold uadd. rewrite fits_usize; auto. Qed.
 
+
+Lemma usub_small a b : b <= a -> usub W_usize a b = Val (a - b).
+Proof. intros H. unfold usub. apply N.leb_le in H. rewrite H. reflexivity. Qed.
+
+(* Symbolic execution of a translated decision function on arguments for which no checked operation
+   fails. It does not depend on the shape of the Rust text (early returns or one && chain, a + b <= c or
+   a <= c - b, the order of independent checks): case analysis on every comparison, the checked operations
+   resolved by linear arithmetic with npow2 x an atom bounded by x <= npow2 x <= 65536. A rewrite of
+   supports / use_high_rate that keeps the meaning keeps these proofs; one that changes it does not. *)
+Ltac usize_bound := unfold USIZE; change (2 ^ 64) with 18446744073709551616; lia.
+Ltac split_cmp :=
+  match goal with
+  | |- context [N.ltb ?a ?b] => destruct (N.ltb_spec a b)
+  | |- context [N.leb ?a ?b] => destruct (N.leb_spec a b)
+  | |- context [N.eqb ?a ?b] => destruct (N.eqb_spec a b)
+  | |- context [N.compare ?a ?b] => destruct (N.compare_spec a b)
+  end.
+Ltac res_exec :=
+  repeat first
+  [ progress cbn [bind andb orb negb]
+  | match goal with
+    | |- context [next_power_of_two W_usize ?x] =>
+        let H := fresh "Hx" in assert (H : x <= 65536) by lia;
+        rewrite (next_pow2_small x H); pose proof (npow2_le_65536 x H); pose proof (npow2_ge x)
+    | |- context [uadd W_usize ?a ?b] => rewrite (uadd_small a b) by usize_bound
+    | |- context [usub W_usize ?a ?b] => rewrite (usub_small a b) by lia
+    end
+  | split_cmp; try (exfalso; lia) ].
+Ltac res_done := first [reflexivity | exfalso; lia | f_equal; lia | f_equal; f_equal; lia].
+
 (* ---------- supports: translated = model, never Overflow ---------- *)
 Theorem high_supports_gen K R : high_supports K R = Val (high_supportsb K R).
 Proof.
-  unfold high_supports, high_supportsb, and_then, bind, np2. cbn [GF_ORDER].
-  destruct (0 <? K) eqn:E1; cbn [andb]; [|reflexivity].
-  destruct (0 <? R) eqn:E2; cbn [andb]; [|reflexivity].
-  destruct (K <? GF_ORDER) eqn:E3; cbn [andb]; [|reflexivity].
-  destruct (R <? GF_ORDER) eqn:E4; cbn [andb]; [|reflexivity].
-  unfold GF_ORDER in *. apply N.ltb_lt in E3, E4.
-  rewrite next_pow2_small by lia.
-  pose proof (npow2_le_65536 R ltac:(lia)).
-  rewrite uadd_small; [reflexivity|]. unfold USIZE. change (2 ^ 64) with 18446744073709551616. lia.
+  unfold high_supports, high_supportsb, and_then, or_else, np2, GF_ORDER. cbv zeta. res_exec; res_done.
 Qed.
 
 Theorem low_supports_gen K R : low_supports K R = Val (low_supportsb K R).
 Proof.
-  unfold low_supports, low_supportsb, and_then, bind, np2. cbn [GF_ORDER].
-  destruct (0 <? K) eqn:E1; cbn [andb]; [|reflexivity].
-  destruct (0 <? R) eqn:E2; cbn [andb]; [|reflexivity].
-  destruct (K <? GF_ORDER) eqn:E3; cbn [andb]; [|reflexivity].
-  destruct (R <? GF_ORDER) eqn:E4; cbn [andb]; [|reflexivity].
-  unfold GF_ORDER in *. apply N.ltb_lt in E3, E4.
-  rewrite next_pow2_small by lia.
-  pose proof (npow2_le_65536 K ltac:(lia)).
-  rewrite uadd_small; [reflexivity|]. unfold USIZE. change (2 ^ 64) with 18446744073709551616. lia.
+  unfold low_supports, low_supportsb, and_then, or_else, np2, GF_ORDER. cbv zeta. res_exec; res_done.
 Qed.
 
 Definition rres_of (K R : N) (o : option bool) : rres bool :=
@@ -105,18 +119,8 @@ Definition rres_of (K R : N) (o : option bool) : rres bool :=
 
 Theorem use_high_rate_gen K R : use_high_rate K R = Val (rres_of K R (use_high_rateb K R)).
 Proof.
-  unfold use_high_rate, use_high_rateb, or_else, bind, np2. unfold GF_ORDER.
-  destruct (65536 <? K) eqn:E1; cbn [orb]; [reflexivity|].
-  destruct (65536 <? R) eqn:E2; cbn [orb]; [reflexivity|].
-  apply N.ltb_ge in E1, E2.
-  rewrite !next_pow2_small by lia.
-  destruct (K =? 0) eqn:E3; cbn [orb]; [reflexivity|].
-  destruct (R =? 0) eqn:E4; cbn [orb]; [reflexivity|].
-  pose proof (npow2_le_65536 K E1). pose proof (npow2_le_65536 R E2).
-  rewrite uadd_small by (unfold USIZE; change (2 ^ 64) with 18446744073709551616; lia).
-  destruct (65536 <? N.min (npow2 K) (npow2 R) + N.max K R) eqn:E5; [reflexivity|].
-  unfold ncmp. destruct (npow2 K ?= npow2 R); cbn [rres_of]; try reflexivity.
-  destruct (K <=? R); reflexivity.
+  unfold use_high_rate, use_high_rateb, and_then, or_else, ncmp, np2, GF_ORDER. cbv zeta.
+  res_exec; cbn [rres_of]; res_exec; res_done.
 Qed.
 
 Theorem default_supports_gen K R : default_supports K R = Val (default_supportsb K R).
